@@ -155,6 +155,38 @@ Fixpoint set_nth_kw (i : nat) (k : str) (l : list arg) : list arg :=
 Definition https_updated_args (args : list arg) : list arg :=
   if Nat.eqb (count_positional args) 10 then set_nth_kw 9 (S_ "_proxy_config") args else args.
 
+(** utils.positional_to_keyword(args, pos_to_keyword): the i-th argument, when it has no keyword and the map names position i,
+    gets that keyword.  None = an exception (IndexError past the end of the map; libcst's "Cannot specify a star and a keyword
+    together" on `*a` / `**k`): the transformer raises and the file is left untouched.
+    P2kCarriesOver: nothing is named from the first starred argument on, and positions past the map are left alone. *)
+Fixpoint positional_to_keyword (v : p2k_variant) (seen_star : bool) (args : list arg) (m : list (option str)) : option (list arg) :=
+  match args with
+  | [] => Some []
+  | a :: r =>
+      let star_here := negb (N.eqb (star a) 0) in
+      let seen := seen_star || star_here in
+      let rest := positional_to_keyword v seen r (List.tl m) in
+      let keep := match rest with Some r' => Some (a :: r') | None => None end in
+      match kw a with
+      | Some _ => keep
+      | None =>
+          match v with
+          | P2kRaisesOnStar =>
+              match m with
+              | [] => None                                   (* pos_to_keyword[i]: IndexError *)
+              | None :: _ => keep
+              | Some k :: _ => if star_here then None        (* CSTValidationError *)
+                               else match rest with Some r' => Some (set_kw a k :: r') | None => None end
+              end
+          | P2kCarriesOver =>
+              match m with
+              | Some k :: _ => if seen then keep else match rest with Some r' => Some (set_kw a k :: r') | None => None end
+              | _ => keep
+              end
+          end
+      end
+  end.
+
 (** The transformers.  Each constructor is one `on_result_found(original_node, updated_node)` / `leave_Call` body. *)
 Inductive hkind :=
 | HReplace (info : list newarg)   (* update_arg_target(updated_node, replace_args(original_node, info)):
@@ -171,7 +203,10 @@ Inductive hkind :=
 | HHttpsAttr                      (* https-connection, callee written a.HTTPConnectionPool *)
 | HHttpsName                      (* https-connection, callee written HTTPConnectionPool *)
 | HTzNow (module tz : expr)       (* timezone-aware-datetime, utcnow branch *)
-| HTzFromTs (module tz : expr).   (* timezone-aware-datetime, utcfromtimestamp branch *)
+| HTzFromTs (module tz : expr)    (* timezone-aware-datetime, utcfromtimestamp branch *)
+| HSendFile (v : p2k_variant) (p0 p1 : expr) (m : list (option str)).
+    (* replace-flask-send-file: flask.send_from_directory(p0, p1, *positional_to_keyword(original_node.args[1:], m));
+       p0, p1 = the two arguments parameterize_path builds from the first one (not modelled: type inference, fresh name) *)
 
 Definition ssl_protocol (safe : expr) : list newarg := [mkNew (S_ "protocol") safe true].
 Definition tz_info (tz : expr) : list newarg := [mkNew (S_ "tz") tz true].
@@ -209,6 +244,19 @@ Definition on_result_found (k : hkind) (o u : expr) : expr :=
         if negb (Nat.eqb (List.length (args_of o)) 2) && negb (existsb (kw_is (S_ "tz")) (args_of o))
         then replace_args (args_of o) (tz_info tz) else args_of o in
       update_call_target u module (Some (S_ "fromtimestamp")) new_args
+  | HSendFile v p0 p1 m =>
+      match positional_to_keyword v false (List.tl (args_of o)) m with
+      | Some r => with_func (with_args u (mkArg None 0 0 0 p0 :: mkArg None 0 0 0 p1 :: r))
+                            (EAttr (EName (S_ "flask")) (S_ "send_from_directory"))
+      | None => u      (* the implementation raises here: see [raises] — the whole file is left untouched *)
+      end
+  end.
+
+(** does the transformer raise on this selected call? (only replace-flask-send-file's positional_to_keyword can) *)
+Definition call_raises (k : hkind) (o : expr) : bool :=
+  match k with
+  | HSendFile v _ _ m => match positional_to_keyword v false (List.tl (args_of o)) m with Some _ => false | None => true end
+  | _ => false
   end.
 
 (** What the code would do if it rebuilt from updated_node everywhere (the reading the property demands). *)
@@ -231,6 +279,14 @@ Fixpoint rw_upd (k : hkind) (e : expr) : expr :=
       if m then on_result_found_upd k u else u
   | EAttr v a => EAttr (rw_upd k v) a
   | _ => e
+  end.
+
+(** some selected call makes the transformer raise: the file is reported as failed and left untouched *)
+Fixpoint raises (k : hkind) (e : expr) : bool :=
+  match e with
+  | ECall m f args => (m && call_raises k e) || raises k f || existsb (fun a => raises k (value a)) args
+  | EAttr v _ => raises k v
+  | _ => false
   end.
 
 (** selected calls, and "no selected call below a selected call" *)
